@@ -6,6 +6,7 @@ import (
 	"runtime"
 	"strings"
 	"sync"
+	"time"
 
 	lisp "github.com/jig/lisp"
 	"github.com/jig/lisp/env"
@@ -19,6 +20,7 @@ import (
 type World struct {
 	Env   types.EnvType
 	mu    sync.Mutex
+	met   int
 	Trace []types.MalType
 }
 
@@ -35,14 +37,46 @@ func NewWorld() (*World, error) {
 			return nil, err
 		}
 	}
-	w.Env.Set(types.Symbol{Val: "trace!"}, types.Func{Fn: func(_ context.Context, a []types.MalType) (types.MalType, error) {
+	w.Env.Set(types.Symbol{Val: "trace!"}, types.Func{Fn: func(ctx context.Context, a []types.MalType) (types.MalType, error) {
 		if len(a) != 1 {
 			return nil, fmt.Errorf("trace! wants 1 argument")
+		}
+		// an evaluation started with WithLocalTrace keeps its own trace (concurrent evaluations on one world)
+		if ctx != nil {
+			if lt, ok := ctx.Value(traceKey{}).(*LocalTrace); ok {
+				lt.mu.Lock()
+				lt.Items = append(lt.Items, a[0])
+				lt.mu.Unlock()
+				return a[0], nil
+			}
 		}
 		w.mu.Lock()
 		w.Trace = append(w.Trace, a[0])
 		w.mu.Unlock()
 		return a[0], nil
+	}})
+	// (yield!) gives the processor away: widens the windows between the steps of an operation
+	w.Env.Set(types.Symbol{Val: "yield!"}, types.Func{Fn: func(_ context.Context, a []types.MalType) (types.MalType, error) {
+		runtime.Gosched()
+		return nil, nil
+	}})
+	// (meet! n) blocks until n callers have arrived (or 300 ms have passed): a rendezvous
+	w.Env.Set(types.Symbol{Val: "meet!"}, types.Func{Fn: func(_ context.Context, a []types.MalType) (types.MalType, error) {
+		n, _ := a[0].(int)
+		w.mu.Lock()
+		w.met++
+		w.mu.Unlock()
+		deadline := time.Now().Add(300 * time.Millisecond)
+		for time.Now().Before(deadline) {
+			w.mu.Lock()
+			ok := w.met >= n
+			w.mu.Unlock()
+			if ok {
+				break
+			}
+			runtime.Gosched()
+		}
+		return nil, nil
 	}})
 	w.Env.Set(types.Symbol{Val: "depth!"}, types.Func{Fn: func(_ context.Context, a []types.MalType) (types.MalType, error) {
 		return EvalDepth(), nil
@@ -124,4 +158,28 @@ func (w *World) CallBuiltin(name string, args ...types.MalType) Outcome {
 		}
 		return f.(types.Func).Fn(context.Background(), args)
 	})
+}
+
+// TraceSnapshot returns a copy of the trace taken under the world's lock.
+func (w *World) TraceSnapshot() []types.MalType {
+	w.mu.Lock()
+	defer w.mu.Unlock()
+	return append([]types.MalType(nil), w.Trace...)
+}
+
+// LocalTrace is the trace of one evaluation among several running on the same world.
+type LocalTrace struct {
+	mu    sync.Mutex
+	Items []types.MalType
+}
+type traceKey struct{}
+
+func WithLocalTrace(ctx context.Context) (context.Context, *LocalTrace) {
+	lt := &LocalTrace{}
+	return context.WithValue(ctx, traceKey{}, lt), lt
+}
+func (lt *LocalTrace) Snapshot() []types.MalType {
+	lt.mu.Lock()
+	defer lt.mu.Unlock()
+	return append([]types.MalType(nil), lt.Items...)
 }
